@@ -10,7 +10,8 @@ clause -> what is compared
   equals fresh       real == Definition(*triple) and Definition(*triple) == real, not (real != ...)
   bools shape        one row per object, one cell per property
   cell reads         d[o, p] for every universe pair agrees with the model; KeyError for absent names
-Never judged (left open by the statement): rename x -> x, move_* with an index outside 0..len-1,
+move_* follows plain list semantics (take the name out, list.insert at the index) for every
+integer index from -len-1 to len+1.  Never judged (left open by the statement): rename x -> x,
 the exception class.
 """
 
@@ -38,7 +39,8 @@ ASSUMPTIONS = ['R2 (mc/tablemodel.py) is the reading of the statement: new names
 UNIVERSES = {
     'quick': [(('a', 'b', 'c'), ('x', 'y')), (('a', 'b'), ('x', 'y', 'z')),
               (('a', 'b', 'c'), ('a', 'y'))],
-    'thorough': [(('a', 'b', 'c'), ('x', 'y', 'z')), (('a', 'b', 'c'), ('a', 'y', 'z'))],
+    'thorough': [(('a', 'b', 'c'), ('x', 'y', 'z')), (('a', 'b', 'c'), ('a', 'y', 'z')),
+                 (('a', 'b', 'c', 'd'), ('x', 'y'))],
 }
 
 
@@ -119,6 +121,12 @@ def main(tier):
                 if explore.canon(real) != key:
                     raise common.HarnessError(f'history replay diverged for {hist}')
                 validated += 1
+                # differential: the same visible triple reached through the constructor
+                try:
+                    if explore.canon(explore.make_real(model)) != key:
+                        res.counters['states_with_hidden_residue'] += 1
+                except Exception:
+                    res.counters['states_with_hidden_residue'] += 1
                 if nontrivial(model):
                     nt += 1
                 outcomes.add(repr(tm.triple(model)))
@@ -133,6 +141,7 @@ def main(tier):
     res.counters['evaluations'] = total_trans
     res.shards_total = res.shards_done = len(runs)
     res.extra['runs'] = runs
+    res.extra['states_with_hidden_residue'] = int(res.counters.get('states_with_hidden_residue', 0))
     res.outcomes = outcomes
     return common.finish(res, tier, LEVEL, RULE, ASSUMPTIONS, t0)
 
